@@ -70,12 +70,13 @@ class LineRecorder(object):
 
 
 def mark_token(tok, rng, form="same"):
-    """A token of the same width and printed form with pseudo-random mantissa digits."""
+    """A token of the same width and printed form with pseudo-random mantissa digits; other forms:
+    zero, neg (-.ddd for 0.ddd), exp3 (letter dropped, 3-digit exponent), exp3E (d.dddE+1dd for 0.ddddE+dd)."""
     m = re.match(r'^([-+]?)(\d*)\.(\d+)(.*)$', tok)
     sign, ip, fp, rest = m.groups()
     if form == "zero":
-        return sign.replace('-', ' ').replace('+', ' ') + "0" * len(ip) + "." + "0" * len(fp) + re.sub(r'\d', '0', rest).replace('-', '+') \
-            if sign else "0" * len(ip) + "." + "0" * len(fp) + re.sub(r'\d', '0', rest).replace('-', '+')
+        z = "0" * len(ip) + "." + "0" * len(fp) + re.sub(r'\d', '0', rest).replace('-', '+')
+        return (" " * len(sign)) + z
     nip = "".join(rng.choice("123456789") if k == 0 and ip != "0" else rng.choice("0123456789") for k in range(len(ip)))
     if ip == "0":
         nip = "0"
@@ -84,7 +85,17 @@ def mark_token(tok, rng, form="same"):
         return "-." + nfp + rest                       # Fortran drops the zero to make room for the sign
     if form == "exp3" and re.match(r'^[EeDd][-+]\d\d$', rest):
         return sign + nip + "." + nfp + rest[1] + "1" + rest[2:]        # E+07 -> +107 : letter dropped, 3 digits
+    if form == "exp3E" and re.match(r'^[EeDd][-+]\d\d$', rest) and ip == "0" and len(fp) >= 2:
+        return sign + nfp[0] + "." + nfp[1:] + rest[:2] + "1" + rest[2:]   # 0.12409E+03 -> 1.2409E+103
     return sign + nip + "." + nfp + rest
+
+
+def start_guard(line, b):
+    """Leftmost column a widened first value may use: one blank must remain after the index / key area."""
+    j = b - 1
+    while j >= 0 and line[j] == ' ':
+        j -= 1
+    return j + 2
 
 
 def value_tokens(line, start):
@@ -109,16 +120,29 @@ def build_copies(path, used_by_index, starts, workdir, seed):
                 toks = value_tokens(line, starts[table])
                 for k, (b, e, text) in enumerate(toks):
                     form = "same"
-                    after_space = e >= len(line.rstrip('\r\n')) or line[e] == ' '
+                    body = line.rstrip('\r\n')
+                    after_space = e >= len(body) or line[e] == ' '
                     before_space = b > 0 and line[b - 1] == ' '
-                    if rownum > 0 and k > 0 and after_space and before_space:
-                        form = rngs["C"].choice(["same", "same", "zero", "neg", "exp3"])
+                    if after_space and before_space:
+                        form = rngs["C"].choice(["same", "same", "zero", "neg", "exp3", "exp3E", "wider"])
                     new = {"A": mark_token(text, rngs["A"]), "B": mark_token(text, rngs["B"]),
-                           "C": mark_token(text, rngs["C"], form)}
+                           "C": mark_token(text, rngs["C"], form if form != "wider" else "same")}
                     for c in "ABC":
                         if len(new[c]) != len(text):
                             new[c] = mark_token(text, rngs[c])
+                    bb = b
+                    if form == "wider":
+                        # a right-aligned number may use the blanks to its left: one more leading digit, or a sign
+                        m = re.match(r'^(\d+)\.(\d+)$', new["C"])
+                        room = b >= 2 and line[b - 2:b] == "  " and (k > 0 or b - 2 >= start_guard(line, b))
+                        if m and room:
+                            new["C"] = rngs["C"].choice(["-", "1", "7"]) + new["C"]
+                            bb = b - 1
+                        else:
+                            form = "same"
+                    for c in "AB":
                         bufs[c][off + b: off + e] = new[c].encode("latin-1")
+                    bufs["C"][off + bb: off + e] = new["C"].encode("latin-1")
                     tokmap[(off, k)] = (new["A"], new["B"], new["C"], form, text)
     paths = {}
     for c in "ABC":
